@@ -124,6 +124,30 @@ func (r errorReporter) prefixed(prefix string, n ast.Node, msg string, args ...i
 	panic(gooseError{err: err})
 }
 
+// internalError turns a panic that is not a goose error (an unchecked type
+// assertion, a nil dereference, ...) raised while translating n into a
+// ConversionError located at n.
+func (r errorReporter) internalError(n ast.Node, cause interface{}) *ConversionError {
+	what := ""
+	if d, ok := n.(*ast.FuncDecl); ok {
+		what = "func " + d.Name.Name
+	} else {
+		func() {
+			defer func() { recover() }()
+			what = r.printGo(n)
+		}()
+	}
+	return &ConversionError{
+		Category:    "impossible(go)",
+		Message:     fmt.Sprintf("internal error: %v", cause),
+		GoCode:      what,
+		GooseCaller: "<recovered panic>",
+		GoSrcFile:   r.fset.Position(n.Pos()).String(),
+		Pos:         n.Pos(),
+		End:         n.End(),
+	}
+}
+
 // nope reports a situation that I thought was impossible from reading the
 // documentation.
 func (r errorReporter) nope(n ast.Node, msg string, args ...interface{}) {
